@@ -290,6 +290,7 @@ func c10Spaces(tier string) []pairLeg {
 		}
 		add("U3", noVoid(U(3)))
 		add("hostile", thin(HostileDocs(), 120))
+		add("deep", Deep(true))
 	} else {
 		add("A2x6", Arr(2, "6"))
 		add("A4x123", Arr(4, "123"))
@@ -298,6 +299,7 @@ func c10Spaces(tier string) []pairLeg {
 		}
 		add("U3", thin(noVoid(U(3)), 60))
 		add("hostile", thin(HostileDocs(), 40))
+		add("deep", Deep(false))
 	}
 	return legs
 }
